@@ -45,7 +45,7 @@ type c15state struct {
 }
 
 var c15LoginPool = []string{"alice", "bob", "Bob", "al ice", "a.b", "..a", "*", "x\ny", "caf\xe9", "\xff\xfe", "-", "~", "#1", "a b c", "guest2", strings.Repeat("L", 200), "q:r", "tab\there", "yaml: {x}", "'quoted'"}
-var c15PwPool = []string{"", "pw", "secret", "p w", "\x01", "\xfe", strings.Repeat("k", 72), "abc", "abd", "\xffa"} // \xff is 0x00 on the wire: only the single byte 0x00 means "unchanged" (all-zero wire passwords are left out: bcrypt cannot tell them from the empty password)
+var c15PwPool = []string{"", "pw", "secret", "p w", "\x01", "\xfe", strings.Repeat("k", 72), "abc", "abd", "\xffa", strings.Repeat("Q", 73), strings.Repeat("m", 100), strings.Repeat("N", 255)} // \xff is 0x00 on the wire: only the single byte 0x00 means "unchanged" (all-zero wire passwords are left out: bcrypt cannot tell them from the empty password)
 
 func (s *c15state) genLogin(label string, wantExisting, wantFresh bool) (string, bool) {
 	var ex, fresh []string
